@@ -349,7 +349,14 @@ func rulesC02(r *Run) {
 	r.CallersWithin("R5", execKey("Plans.runPlan"), execKey("Plans.Start"), execKey("Plans.recover"))
 	ruleRecoverRunsPlans(r, "R5")
 	ruleFilterCompaction(r, "R5")
-	r.Expect("R5", 5)
+	ruleSharedEngineStateImmutable(r, "R5")
+	r.Expect("R5", 6)
+
+	// R6: a slot is given back when an action times out, so the timed-out plugin must have been told to stop
+	// (round-3 seed C02-6): the plugin runs under the timeout context of run()
+	r.Kind("R6", "K11")
+	ruleRunRace(r, "R6")
+	r.Expect("R6", 3)
 
 	// ---- R4: Defaults floors Concurrency
 	r.Kind("R4", "K5")
@@ -862,7 +869,9 @@ func rulesC03(r *Run) {
 	} else {
 		r.Check("R2", "count:launched-failures", posB, badB == "", "%s", orOK(badB, "incremented exactly on the failing branch of execSeq"))
 	}
-	r.Expect("R2", 4)
+	// a sequence that failed before a restart is counted once, by the pre-count, and not launched again (round-3 seed C03-5)
+	ruleLaunchGuard(r, "R2")
+	r.Expect("R2", 5)
 
 	// ---- R3: no launch after the threshold
 	r.Kind("R3", "K3")
@@ -1102,4 +1111,65 @@ func ruleFinalBlocks(r *Run, rule string) {
 		return
 	}
 	r.Check(rule, "finalStates.blocks:non-completed-fails-plan", bpos, bad == "", "%s", orOK(bad, "any block that is not Completed ⇒ plan Failed, FRBlock, Err set; otherwise nothing is failed"))
+}
+
+// ruleSharedEngineStateImmutable (round-3 seed C02-5): one sm.States value (and the actions.Runner inside it) serves
+// every plan of a Workstream concurrently, so nothing that belongs to one execution may live in it: no function
+// other than a constructor assigns a field of a States or Runner value. Per-plan state belongs in the request's
+// Data. A group, limiter or counter kept on the receiver is overwritten by the next plan that reaches the same
+// state, and the first plan then waits on — and launches into — the other plan's group.
+func ruleSharedEngineStateImmutable(r *Run, rule string) {
+	shared := map[string]bool{"sm.States": true, "actions.Runner": true}
+	n := 0
+	for _, fn := range r.P.sortedFuncs() {
+		rel := relPkg(fn.Pkg.PkgPath)
+		if fn.Decl.Body == nil || (rel != pkgSM && rel != pkgActions) {
+			continue
+		}
+		if strings.HasSuffix(r.P.Fset.Position(fn.Decl.Pos()).Filename, "_test.go") {
+			continue
+		}
+		n++
+		if fn.Decl.Recv == nil && strings.HasPrefix(fn.Obj.Name(), "New") {
+			continue // constructors build the value before it is shared
+		}
+		info := fn.Pkg.TypesInfo
+		bad := ""
+		var bpos token.Pos = fn.Decl.Pos()
+		check := func(l ast.Expr) {
+			sel, ok := ast.Unparen(l).(*ast.SelectorExpr)
+			for ok {
+				if tv, has := info.Types[sel.X]; has {
+					t := strings.TrimPrefix(ShortType(tv.Type), "*")
+					if shared[t] && bad == "" {
+						if s := info.Selections[sel]; s != nil && s.Kind() == types.FieldVal {
+							bad, bpos = ShortFn(fn.Key)+" assigns "+ExprStr(l)+", a field of the "+t+" value that all plans of a Workstream share: state of one execution kept there is overwritten by the next plan that gets to the same point", l.Pos()
+						}
+					}
+				}
+				sel, ok = ast.Unparen(sel.X).(*ast.SelectorExpr)
+			}
+		}
+		ast.Inspect(fn.Decl.Body, func(x ast.Node) bool {
+			switch s := x.(type) {
+			case *ast.AssignStmt:
+				if s.Tok != token.DEFINE {
+					for _, l := range s.Lhs {
+						check(l)
+					}
+				}
+			case *ast.IncDecStmt:
+				check(s.X)
+			}
+			return true
+		})
+		if bad != "" {
+			r.Fail(rule, "shared-engine-state-immutable:"+ShortFn(fn.Key), bpos, "%s", bad)
+		}
+	}
+	if n == 0 {
+		r.Unresolved(rule, "functions of the engine packages")
+		return
+	}
+	r.Check(rule, "shared-engine-state-immutable", 0, true, "no function of sm/actions other than a constructor assigns a field of sm.States or actions.Runner (%d functions inspected)", n)
 }
